@@ -53,6 +53,36 @@ Example C05_nonvacuous :
   ca (crun std_filt cs empty) 0 <> [].
 Proof. vm_compute. split; [reflexivity | discriminate]. Qed.
 
+(* ---- traversals and searches run THROUGH the memo (TravCached.v threads the heap through every
+   neighbors() call): on a coherent heap each returns exactly what the uncached traversal / search
+   returns, and leaves a coherent heap that differs in the memo only ---- *)
+From EG Require Import Trav TravState TravCached TravCachedProofs.
+Theorem C05_cached_bft_equals_uncached : forall filt s ou start, wf s -> Coh filt s -> forall d u fv fr,
+  snd (bft_st state (nbs_c filt d u fv) (t_uni s ou) fr (trav_fuel s) s start) = s_bft filt s ou start d u fv fr.
+Proof. exact cached_bft_equals_s_bft. Qed.
+Theorem C05_cached_dft_recursive_equals_uncached : forall filt s ou start, wf s -> Coh filt s -> forall d u fv fr,
+  snd (dft_rec_st state (nbs_c filt d u fv) (t_uni s ou) fr (trav_fuel s) s start) = s_dft_rec filt s ou start d u fv fr.
+Proof. exact cached_dft_rec_equals_s_dft_rec. Qed.
+Theorem C05_cached_dft_iterative_equals_uncached : forall filt s ou start, wf s -> Coh filt s -> forall d u fv fr,
+  snd (dft_iter_st state (nbs_c filt d u fv) (t_uni s ou) fr (trav_fuel s) s start) = s_dft_iter filt s ou start d u fv fr.
+Proof. exact cached_dft_iter_equals_s_dft_iter. Qed.
+Theorem C05_cached_bfs_equals_uncached : forall filt s ou start, wf s -> Coh filt s -> forall m,
+  snd (bfs_st state (nbs_c filt Fwd UErr None) (t_uni s ou) m (trav_fuel s) s start) = s_bfs filt s ou start m.
+Proof. exact cached_bfs_equals_s_bfs. Qed.
+Theorem C05_cached_dfs_recursive_equals_uncached : forall filt s ou start, wf s -> Coh filt s -> forall m,
+  snd (dfs_rec_st state (nbs_c filt Fwd UErr None) (t_uni s ou) m (trav_fuel s) s start) = s_dfs_rec filt s ou start m.
+Proof. exact cached_dfs_rec_equals_s_dfs_rec. Qed.
+Theorem C05_cached_dfs_iterative_equals_uncached : forall filt s ou start, wf s -> Coh filt s -> forall m,
+  snd (dfs_iter_st state (nbs_c filt Fwd UErr None) (t_uni s ou) m (trav_fuel s) s start) = s_dfs_iter filt s ou start m.
+Proof. exact cached_dfs_iter_equals_s_dfs_iter. Qed.
+(* the traversal leaves the graph as it was and the memo coherent *)
+Theorem C05_cached_traversal_leaves_graph_and_coherence : forall filt s ou start, wf s -> Coh filt s -> forall d u fv fr fuel,
+  snd (bft_st state (nbs_c filt d u fv) (t_uni s ou) fr fuel s start) = bft (t_nb filt s d u fv) (t_uni s ou) fr fuel start /\
+  (let s' := fst (bft_st state (nbs_c filt d u fv) (t_uni s ou) fr fuel s start) in
+   wf s' /\ Coh filt s' /\ vlinks s' = vlinks s /\ lverts s' = lverts s /\ vunis s' = vunis s /\ uverts s' = uverts s /\
+   ulaws s' = ulaws s /\ lapp s' = lapp s /\ kind s' = kind s /\ caching s' = caching s).
+Proof. intros. apply cached_bft_equals_uncached; assumption. Qed.
+
 Print Assumptions C05_cached_answers_equal_recomputed.
 Print Assumptions C05_answers_independent_of_the_flag.
 Print Assumptions C05_coherence_on_every_reachable_state.
@@ -60,3 +90,11 @@ Print Assumptions C05_every_mutator_preserves_coherence.
 Print Assumptions C05_query_preserves_coherence_and_graph.
 Print Assumptions C05_answer_footprint.
 Print Assumptions C05_nonvacuous.
+Print Assumptions C05_cached_bft_equals_uncached.
+Print Assumptions C05_cached_dft_recursive_equals_uncached.
+Print Assumptions C05_cached_dft_iterative_equals_uncached.
+Print Assumptions C05_cached_bfs_equals_uncached.
+Print Assumptions C05_cached_dfs_recursive_equals_uncached.
+Print Assumptions C05_cached_dfs_iterative_equals_uncached.
+Print Assumptions C05_cached_traversal_leaves_graph_and_coherence.
+Print Assumptions cached_traversal_example.
